@@ -1,7 +1,262 @@
 //! C08 (b)/(c): language-level dependency ordering of `begin ... that ... end` blocks.
 
 use crate::core::*;
+use crate::e1::{self, eval::RefEnd, print::Style};
+use crate::pipeline::{self, End, Sources, Verdict};
+use crate::prelude::MiniPrelude;
+use crate::props::c08::Digraph;
+use crate::util::rng::Rng;
+use serde_json::json;
+use std::collections::BTreeSet;
+use zydeco_surface::scoped::syntax::ContextNode;
 
-pub fn generators(_cfg: &Cfg) -> Vec<Generator> {
-    Vec::new()
+pub fn generators(cfg: &Cfg) -> Vec<Generator> {
+    // digraphs on <= 3 nodes (quick: 530) / <= 4 nodes (thorough: 66 066), three flavours each
+    let graphs: u64 = cfg.tier.pick(2 + 16 + 512, 2 + 16 + 512 + 65_536);
+    vec![
+        Generator { name: "blocks", total: graphs, run: run_block, case_cpu_limit_s: 120 },
+        Generator { name: "perms", total: cfg.tier.pick(400, 12_000), run: run_perms, case_cpu_limit_s: 120 },
+        Generator { name: "paramcycles", total: param_cycles().len() as u64, run: run_param_cycle, case_cpu_limit_s: 60 },
+    ]
+}
+
+fn nth_graph(mut idx: u64) -> (usize, u64) {
+    for n in 1..=4usize {
+        let count = 1u64 << (n * n);
+        if idx < count {
+            return (n, idx);
+        }
+        idx -= count;
+    }
+    (1, 0)
+}
+
+fn violation(stats: &mut Stats, generator: &str, index: u64, signature: String, tags: Vec<String>, detail: serde_json::Value) {
+    stats.violation(Violation { signature, tags, generator: generator.into(), index, detail });
+}
+
+/// One block per digraph in two flavours: sealed data types (every graph legal) and value definitions (cycles illegal).
+fn run_block(cfg: &Cfg, index: u64, stats: &mut Stats) {
+    let (n, code) = nth_graph(index);
+    let g = Digraph::from_code(n, code);
+    let comp = g.components();
+    let reach = g.closure();
+    let cyclic: Vec<bool> = (0..n).map(|i| (0..n).any(|j| j != i && reach[i][j] && reach[j][i]) || g.deps[i].contains(&i)).collect();
+    let any_cycle = cyclic.iter().any(|c| *c);
+    let mut rng = Rng::for_case(cfg.seed, "C08/blocks", index);
+    // textual order of the contributions: a random permutation
+    let mut order: Vec<usize> = (0..n).collect();
+    rng.shuffle(&mut order);
+    let label = format!("n{n}/{code:#x}");
+    if g.edges() >= 1 {
+        stats.nontrivial(format!("blocks/{label}").as_bytes());
+    }
+
+    /* ---- flavour T: sealed data types; every reference graph is legal (recursive group) ---- */
+    {
+        let mut text = MiniPrelude::core().text();
+        text.push_str("begin\n");
+        for &i in &order {
+            let payload: Vec<String> = g.deps[i].iter().map(|j| format!("T{j}")).collect();
+            let rec = if payload.is_empty() { "Unit".to_string() } else { payload.join(" * ") };
+            text.push_str(&format!("def T{i} : VType = data | +C{i} : Unit | +R{i} : {rec} end that\n"));
+        }
+        // use every type: build its base constructor and match it, printing the node number
+        let mut body = "! exit 0".to_string();
+        for i in (0..n).rev() {
+            body = format!("match (+C{i}() : T{i}) | +C{i}() => ! write_line \"{i}\" {{ {body} }} | +R{i}(_) => ! exit 9 end");
+        }
+        text.push_str(&body);
+        text.push_str("\nend\n");
+        let sources = Sources::single(text);
+        let analyzed = pipeline::analyze_overlay(&sources);
+        stats.evaluations += 1;
+        let expected_out: String = (0..n).map(|i| format!("{i}\n")).collect();
+        let mut problem: Option<(String, String)> = None;
+        match &analyzed.verdict {
+            | Verdict::Checked => {
+                // the recorded dependency analysis: exactly the SCCs, dependencies first
+                if let Some(analysis) = analyzed.analysis() {
+                    let scoped = analysis.scoped();
+                    let block = scoped.blocks.iter().find(|(_, b)| b.context.nodes.iter().map(|(_, node)| node.bindings().len()).sum::<usize>() == n);
+                    match block {
+                        | None => problem = Some(("block-context-missing".into(), "no recorded block context with n bindings".into())),
+                        | Some((_, block)) => {
+                            let topo = block.context.topological_order();
+                            let mut emitted: Vec<Vec<usize>> = Vec::new();
+                            let mut recursive_flags: Vec<bool> = Vec::new();
+                            for node_id in &topo {
+                                let node = &block.context.nodes[node_id];
+                                emitted.push(node.bindings().iter().map(|b| order[b.source_order()]).collect());
+                                recursive_flags.push(matches!(node, ContextNode::Recursive(_)));
+                            }
+                            stats.add("topological_orders_checked", 1);
+                            // partition = SCCs
+                            let mut seen: BTreeSet<usize> = BTreeSet::new();
+                            for (k, group) in emitted.iter().enumerate() {
+                                let c = comp[group[0]];
+                                let expect: BTreeSet<usize> = (0..n).filter(|i| comp[*i] == c).collect();
+                                let got: BTreeSet<usize> = group.iter().copied().collect();
+                                if got != expect {
+                                    problem = Some(("scc-partition-wrong".into(), format!("group {:?} is not the component {:?}", got, expect)));
+                                }
+                                let should_be_recursive = group.len() > 1 || cyclic[group[0]];
+                                if recursive_flags[k] != should_be_recursive {
+                                    problem = Some(("recursive-classification-wrong".into(), format!("group {:?} recursive={} expected {}", got, recursive_flags[k], should_be_recursive)));
+                                }
+                                // dependencies first
+                                for i in group {
+                                    for j in 0..n {
+                                        if comp[j] != c && reach[*i][j] && !seen.contains(&j) {
+                                            problem = Some(("dependency-order-wrong".into(), format!("node {} emitted before its dependency {}", i, j)));
+                                        }
+                                    }
+                                }
+                                seen.extend(got);
+                            }
+                            if seen.len() != n {
+                                problem = Some(("scc-partition-wrong".into(), format!("{} of {} nodes emitted", seen.len(), n)));
+                            }
+                        }
+                    }
+                }
+                if problem.is_none() {
+                    match analyzed.executable() {
+                        | Ok(exe) => {
+                            let run = pipeline::run_executable(exe, b"", &[], 100_000);
+                            if run.stdout != expected_out.as_bytes() || run.end != End::Exit(0) {
+                                problem = Some(("type-block-misbehaves".into(), format!("expected {:?} exit 0, got {:?} {:?}", expected_out, String::from_utf8_lossy(&run.stdout), run.end)));
+                            }
+                        }
+                        | Err(e) => problem = Some(("type-block-not-executable".into(), e)),
+                    }
+                }
+            }
+            | Verdict::Panic(p) => problem = Some((format!("front-end-panic {}", p.site()), p.short())),
+            | other => problem = Some(("recursive-type-group-rejected".into(), other.brief())),
+        }
+        stats.count(&format!("types_{}", analyzed.verdict.class()));
+        if let Some((signature, why)) = problem {
+            violation(stats, "blocks", index, signature, vec!["flavour:types".into()], json!({"graph": g.describe(), "order": order, "problem": why, "sources": sources.to_json()}));
+        }
+    }
+
+    /* ---- flavour V: value definitions; a cycle must be rejected with a diagnostic ---- */
+    {
+        let mut text = MiniPrelude::core().text();
+        text.push_str("begin\n");
+        for &i in &order {
+            let mut items: Vec<String> = vec![format!("{}", 100 + i)];
+            items.extend(g.deps[i].iter().map(|j| format!("v{j}")));
+            let value = if items.len() == 1 { items[0].clone() } else { format!("({})", items.join(", ")) };
+            text.push_str(&format!("let v{i} = {value} that\n"));
+        }
+        // observe the head constant of every definition
+        let mut body = "! exit 0".to_string();
+        for i in (0..n).rev() {
+            let head = if g.deps[i].is_empty() { format!("let h{i} = v{i} in") } else { format!("let (h{i}, _) = v{i} in") };
+            body = format!("{head}\ndo s{i} <- ! to_string h{i};\n! write_line s{i} {{ {body} }}");
+        }
+        text.push_str(&body);
+        text.push_str("\nend\n");
+        let sources = Sources::single(text);
+        let result = pipeline::check_and_run(&sources, b"", &[], 100_000);
+        stats.evaluations += 1;
+        stats.count(&format!("values_{}{}", if any_cycle { "cyclic_" } else { "acyclic_" }, result.verdict.class()));
+        let expected_out: String = (0..n).map(|i| format!("{}\n", 100 + i)).collect();
+        let problem: Option<(String, String)> = match (&result.verdict, any_cycle) {
+            | (Verdict::Panic(p), _) => Some((format!("front-end-panic {}", p.site()), p.short())),
+            | (v, true) if v.is_reject() => None,
+            | (v, true) => Some(("value-cycle-accepted".into(), v.brief())),
+            | (Verdict::Checked, false) => match &result.run {
+                | Some(run) if run.stdout == expected_out.as_bytes() && run.end == End::Exit(0) => None,
+                | Some(run) => Some(("value-block-misbehaves".into(), format!("expected {:?}, got {:?} {:?}", expected_out, String::from_utf8_lossy(&run.stdout), run.end))),
+                | None => Some(("value-block-not-executable".into(), format!("{:?}", result.not_executable))),
+            },
+            | (v, false) => Some(("acyclic-value-block-rejected".into(), v.brief())),
+        };
+        if let Some((signature, why)) = problem {
+            violation(stats, "blocks", index, signature, vec!["flavour:values".into()], json!({"graph": g.describe(), "order": order, "problem": why, "sources": sources.to_json()}));
+        }
+    }
+    if index == 40 {
+        stats.sample(json!({"graph": g.describe(), "textual_order": order, "flavours": ["sealed data types (all graphs legal)", "value definitions (cycles rejected)"]}));
+    }
+    if index == 0 {
+        stats.exhaustive.push(format!("language level: every digraph on <= {} nodes as a block of sealed types and as a block of values", if cfg.tier == Tier::Quick { 3 } else { 4 }));
+    }
+}
+
+/// (c) permutation metamorphism: the same generated program with its block contributions permuted.
+fn run_perms(cfg: &Cfg, index: u64, stats: &mut Stats) {
+    let program = e1::generate::generate(cfg.seed, "C08p", index);
+    let reference = e1::eval::run(&program, 400_000);
+    let RefEnd::Exit(code) = reference.end else {
+        stats.inconclusive("reference did not reach an exit");
+        return;
+    };
+    let k = cfg.tier.pick(4u64, 8u64);
+    let mut outcomes: Vec<(u64, String, Option<(Vec<u8>, End)>, String)> = Vec::new();
+    let mut has_block = false;
+    for perm in 0..k {
+        let mut style = Style::plain();
+        style.block_lets = true;
+        style.block_shuffle = if perm == 0 { 0 } else { cfg.seed.wrapping_mul(977) ^ index ^ (perm << 32) | 1 };
+        let text = e1::print::program_text(&program, &style, cfg.seed ^ index);
+        has_block |= text.matches(" that\nlet ").count() >= 1;
+        let sources = Sources::single(text.clone());
+        let result = pipeline::check_and_run(&sources, b"", &[], 2_000_000);
+        stats.evaluations += 1;
+        outcomes.push((perm, result.verdict.class().to_string(), result.run.map(|r| (r.stdout, r.end)), text));
+    }
+    if has_block {
+        stats.nontrivial(outcomes[0].3.as_bytes());
+        stats.count("programs_with_permuted_blocks");
+    }
+    for (perm, class, run, text) in &outcomes {
+        let ok = class == "checked" && run.as_ref().map(|(o, e)| o == &reference.stdout && *e == End::Exit(code)).unwrap_or(false);
+        if !ok {
+            violation(
+                stats,
+                "perms",
+                index,
+                if class == "checked" { "behaviour-depends-on-contribution-order".into() } else { format!("acceptance-depends-on-contribution-order {}", class) },
+                vec![format!("permutation:{perm}")],
+                json!({"permutation": perm, "class": class, "observed": run.as_ref().map(|(o, e)| json!({"stdout": String::from_utf8_lossy(o), "end": format!("{:?}", e)})),
+                       "expected_stdout": String::from_utf8_lossy(&reference.stdout), "expected_exit": code, "sources": {"root.zy": text}, "source_order_text": outcomes[0].3}),
+            );
+        }
+    }
+}
+
+/// Cycles through a parameter: rejected with a diagnostic, never a hang or a crash.
+fn param_cycles() -> Vec<(&'static str, &'static str)> {
+    vec![
+        ("param-alias-2cycle", "begin\nparam (m : exists (T : VType) . A) that\nlet A = m/T that\n! exit 0\nend\n"),
+        ("param-alias-3cycle", "begin\nparam (m : exists (T : VType) . B) that\nlet A = m/T that\nlet B = A * A that\n! exit 0\nend\n"),
+        ("param-self-annotation", "begin\nparam (m : m/T) that\n! exit 0\nend\n"),
+        ("param-value-cycle", "{ begin\nparam (x : Int64) that\nlet y = (x, z) that\nlet z = (y, 1) that\nret x\nend }\n"),
+        ("two-params-mutual", "{ begin\nparam (a : exists (T : VType) . b/T) that\nparam (b : exists (T : VType) . a/T) that\nret 0\nend }\n"),
+        ("param-no-cycle-control", "begin\nlet A = Int64 that\nlet f = { begin param (x : A) that ! add x 1 end } that\ndo r <- ! f 4;\n! exit r\nend\n"),
+    ]
+}
+
+fn run_param_cycle(_cfg: &Cfg, index: u64, stats: &mut Stats) {
+    let (name, body) = param_cycles()[index as usize];
+    let text = if body.starts_with('{') { format!("{}let t = {} in ! exit 0\n", MiniPrelude::core().text(), body) } else { format!("{}{}", MiniPrelude::core().text(), body) };
+    let sources = Sources::single(text);
+    let analyzed = pipeline::analyze_overlay(&sources);
+    stats.evaluations += 1;
+    stats.nontrivial(format!("paramcycle/{name}").as_bytes());
+    stats.cover("param_cycle_cases", name);
+    stats.cover("param_cycle_verdicts", &format!("{}:{}", name, analyzed.verdict.brief().lines().next().unwrap_or("").chars().take(60).collect::<String>()));
+    let ok = if name.ends_with("control") { analyzed.verdict.is_accept() } else { analyzed.verdict.is_reject() };
+    if !ok {
+        let signature = match &analyzed.verdict {
+            | Verdict::Panic(p) => format!("front-end-panic {}", p.site()),
+            | Verdict::Checked => "cycle-through-parameter-accepted".to_string(),
+            | other => format!("control-case-rejected {}", other.brief().chars().take(50).collect::<String>()),
+        };
+        violation(stats, "paramcycles", index, signature, vec![name.to_string()], json!({"case": name, "verdict": analyzed.verdict.brief(), "sources": sources.to_json()}));
+    }
 }
